@@ -104,6 +104,7 @@ def gen_case(rng):
         else:
             ops.append({"op": "bounds"})
     case["ops"] = ops
+    case["forms"] = archlib.gen_forms(rng)
     return case
 
 
@@ -112,7 +113,7 @@ def make(case):
     return ProximityArchive(solution_dim=case["sol_dim"], measure_dim=case["nd"], k_neighbors=case["k"],
                             novelty_threshold=float(fr(case["nu"])), local_competition=case["lc"],
                             initial_capacity=case["cap"], qd_score_offset=float(fr(case["off"])), seed=0,
-                            dtype=NP[case["dtype"]], extra_fields=archlib.extra_fields(case["layout"]))
+                            dtype=archlib.dtype_arg(case), extra_fields=archlib.extra_fields(case["layout"]))
 
 
 def obs_case(case):
@@ -247,10 +248,7 @@ class Run:
             near = [int(i) for i in self.a.index_of(meas.astype(NP[dt]))] if n else [None] * len(rows)
         else:
             nov_pre, near = [], []
-        if single:
-            info = self.a.add_single(sol[0], None if obj is None else obj[0], meas[0], **{k: v[0] for k, v in extras.items()})
-        else:
-            info = self.a.add(sol, obj, meas, **extras)
+        info = archlib.submit(self.a, case, single, sol, obj, meas, extras)
         status = [int(s) for s in np.atleast_1d(info["status"])] if rows or "status" in info else []
         novelty = [F(float(x)) for x in np.atleast_1d(info["novelty"])] if rows else []
         if rows and novelty != nov_pre:
